@@ -30,6 +30,8 @@ pub fn lit_scalar(k: &str, rng: &mut Rng) -> String {
     "string" => format!("\"{}\"", rng.pick(&["a", "bc", "hello", "x y", "", "zé!", "日本", "ñandú x"])),
     "r64" => format!("{}/{}", 1 + rng.below(7), 2 + rng.below(5)),
     "c64" => format!("{}+{}i", 1 + rng.below(5), 1 + rng.below(5)),
+    "u16" | "u32" | "u128" => format!("{}{}", 1 + rng.below(9), k),
+    "i16" | "i32" | "i128" => if rng.chance(1, 2) { format!("{}<{}>", 1 + rng.below(9), k) } else { format!("{}{}", 1 + rng.below(9), k) },
     _ => "1".into(),
   }
 }
@@ -119,8 +121,9 @@ impl<'a> Gen<'a> {
     if ms.is_empty() { return; }
     let a = self.rng.pick(&ms).clone(); let Ty::M(k, r, c) = a.ty.clone() else { return };
     let n = self.fresh(); let tot = r * c;
-    let form = self.rng.below(8);
+    let form = self.rng.below(9);
     let (ix, ty, tag): (String, Ty, &str) = match form {
+      8 => (format!(".{}", 1 + self.rng.below(tot as u64)), Ty::S(k), "ix-dot"),
       0 => (format!("[{}]", 1 + self.rng.below(tot as u64)), Ty::S(k), "ix-s"),
       1 if r > 1 && c > 1 => (format!("[{},{}]", 1 + self.rng.below(r as u64), 1 + self.rng.below(c as u64)), Ty::S(k), "ix-ss"),
       2 if tot >= 2 => (format!("[1..={}]", 2 + self.rng.below((tot - 1) as u64)), Ty::M(k, 0, 0), "ix-range"),
@@ -204,7 +207,7 @@ impl<'a> Gen<'a> {
     let k = if self.clean { *self.rng.pick(&["f64", "f64", "bool", "string"]) } else { *self.rng.pick(&SKINDS) };
     match roll {
       0..=14 => self.define_scalar_literal(k),
-      15..=27 => { let (r, c) = *self.rng.pick(&[(1usize, 3usize), (3, 1), (2, 2), (2, 3), (3, 3), (1, 1), (4, 1), (1, 4), (4, 2), (5, 1), (2, 5)]); let mk = if self.clean { *self.rng.pick(&["f64", "f64", "bool", "string"]) } else { *self.rng.pick(&["f64", "f64", "u8", "i64", "bool", "string"]) }; self.define_matrix_literal(mk, r, c) }
+      15..=27 => { let (r, c) = *self.rng.pick(&[(1usize, 3usize), (3, 1), (2, 2), (2, 3), (3, 3), (1, 1), (4, 1), (1, 4), (4, 2), (5, 1), (2, 5)]); let mk = if self.clean { *self.rng.pick(&["f64", "f64", "bool", "string"]) } else { *self.rng.pick(&["f64", "f64", "f64", "u8", "u8", "i64", "i64", "bool", "bool", "string", "string", "u16", "u32", "u64", "u128", "i8", "i16", "i32", "i128", "f32"]) }; self.define_matrix_literal(mk, r, c) }
       28..=45 => self.binop(k),
       46..=53 => self.matrix_binop(),
       54..=58 => self.unop(),
@@ -251,7 +254,7 @@ pub fn construct_sweep(rng: &mut Rng) -> Vec<Prog> {
     { let mut g = Gen::new(rng); g.define_scalar_literal(k); g.finish(); out.push(g.prog); }
     for _ in 0..4 { let mut g = Gen::new(rng); g.define_scalar_literal(k); g.binop(k); g.finish(); out.push(g.prog); }
   }
-  for mk in ["f64", "u8", "u64", "i8", "i64", "f32", "bool", "string"] {
+  for mk in ["f64", "u8", "u64", "i8", "i64", "f32", "bool", "string", "u16", "u32", "u128", "i16", "i32", "i128"] {
     let mk: &'static str = mk;
     for (r, c) in [(1usize, 3usize), (3, 1), (2, 2), (2, 3), (4, 1), (1, 4), (4, 2), (5, 1)] {
       { let mut g = Gen::new(rng); g.define_matrix_literal(mk, r, c); g.finish(); out.push(g.prog); }
